@@ -13,7 +13,8 @@
 (*            training"); no samples => error; valid parameters on full-rank data => a finite      *)
 (*            model with W of shape k x p and mean = column mean, or the NotConverged error        *)
 (*   TPred    shape, finiteness, y = (x - mean) W^T for every row of X and Z, and the recovered    *)
-(*            sources of the training rows are centred with covariance I (normaliser n or n - 1);  *)
+(*            sources of the training rows are centred, uncorrelated and of equal variance, at one *)
+(*            of the conventional scales SUM y y^T = d I, d in {n, n-1, 1}, the same for every fit;*)
 (*            on SepDomain cases the seed is counted when the sources are separated                *)
 (*   TRefit   the three digests are equal (bit-identical results for the same random_state); on    *)
 (*            SepDomain cases the majority of the seeds separated the sources (a single random     *)
@@ -22,14 +23,13 @@
 (***************************************************************************************************)
 EXTENDS FastIca, TraceIO
 
-CONSTANT Devs      \* named deviations (known findings):
-                   \*   "sources_scaled_inv_sqrt_n"  the code scales the whitened data by sqrt(n) for the
-                   \*      iteration but not the published unmixing matrix, so that the recovered sources satisfy
-                   \*      SUM_i y_i y_i^T = I (covariance I / n) instead of covariance I.  Modelled exactly: the
-                   \*      normaliser 1 is accepted next to n and n - 1; everything else is demanded unchanged.
+CONSTANT Devs      \* named deviations (known findings) -- none for X04
 
-VARIABLES c, e, nsep
-tvars == <<c, e, nsep>>
+VARIABLES c, e,
+          nsep,     \* seeds whose fit separated the sources so far
+          norm      \* the scale d (SUM_i y y^T = d I) of the fits seen so far, 0 = none yet
+tv == <<nsep, norm>>
+tvars == <<c, e, nsep, norm>>
 
 Case == Rec[c]
 In   == Case.inp
@@ -43,7 +43,6 @@ KK == KEff(In.k, PP)
 All == XX \o In.Z
 Bad == Invalid(In.k, PP, In.g, In.am)
 Full == NN >= 2 /\ FullRank(XX, PP)
-Norms == StrictNorms(NN) \cup (IF "sources_scaled_inv_sqrt_n" \in Devs THEN {1} ELSE {})
 
 \* the case is a mixture as the statement's separation clause describes it, and the stopping rule lets the
 \* iteration run (default or larger max_iter, default or tighter tolerance)
@@ -57,7 +56,7 @@ SepDomain ==
   /\ CorrDomain(NN, Col(TSrc, 1)) /\ CorrDomain(NN, Col(TSrc, 2))
 
 TraceInit ==
-  /\ c \in 1..Len(Rec) /\ e = 1 /\ nsep = 0
+  /\ c \in 1..Len(Rec) /\ e = 1 /\ nsep = 0 /\ norm = 0
   \* the design-model variables are not used during trace validation
   /\ pc = "trace" /\ i1 = 0 /\ i2 = 0 /\ A = <<>> /\ off = <<>> /\ perm = <<>> /\ sg = <<>> /\ par = <<>>
   /\ mean = <<>> /\ W = <<>> /\ Y = <<>> /\ r = 0
@@ -65,7 +64,7 @@ TraceInit ==
 HasEv(name) == e <= Len(Case.ev) /\ Ev.ev = name
 Adv == e' = e + 1 /\ UNCHANGED <<c, vars>>
 \* an event that the specification does not explain ends the case with a diagnostic (no acceptance)
-Reject(why) == Fail(Case.id, <<e, why>>) /\ e' = Len(Case.ev) + 2 /\ UNCHANGED <<c, vars, nsep>>
+Reject(why) == Fail(Case.id, <<e, why>>) /\ e' = Len(Case.ev) + 2 /\ UNCHANGED <<c, vars, tv>>
 
 FitModelOk ==
   /\ Ev.finite /\ ~Ev.big
@@ -86,7 +85,7 @@ FitWhy ==
   ELSE IF ~MeanOk(XX, PP, Ev.mean) THEN "mean" ELSE "shape"
 TFit ==
   /\ HasEv("fit")
-  /\ IF (IsMix => MixDef) /\ FitOk THEN Adv /\ UNCHANGED nsep ELSE Reject(FitWhy)
+  /\ IF (IsMix => MixDef) /\ FitOk THEN Adv /\ UNCHANGED tv ELSE Reject(FitWhy)
 
 \* the fit event this prediction belongs to
 Fit == Case.ev[e - 1]
@@ -101,39 +100,41 @@ CellsOk ==
   \A i \in 1..Len(All) :
     LET cen == CenRow(All[i], sums, NN) IN
     \A a \in 1..KK : CellDomain(NN, cen, Fit.W[a], Ev.Y[i][a]) /\ CellOk(NN, cen, Fit.W[a], Ev.Y[i][a])
+\* centred, uncorrelated, equal variances, at one of the conventional scales -- and the same scale for every fit of the case
+Scales == NormsOf(TrainY, KK)
+ScaleOk == Scales # {} /\ (norm = 0 \/ norm \in Scales)
 PredWhy ==
-  IF ~ShapeOk THEN "nan_or_shape" ELSE IF ~CellsOk THEN "predict_cell" ELSE "not_white"
+  IF ~ShapeOk THEN "nan_or_shape" ELSE IF ~CellsOk THEN "predict_cell"
+  ELSE IF Scales = {} THEN "not_white" ELSE "scale_differs_between_fits"
 TPred ==
   /\ HasEv("predict")
-  /\ IF (Full /\ ~Bad) => (ShapeOk /\ CellsOk /\ WhiteOk(TrainY, KK, Norms))
+  /\ IF (Full /\ ~Bad) => (ShapeOk /\ CellsOk /\ ScaleOk)
        THEN /\ nsep' = IF SepDomain /\ Separated(TrainY, TSrc) THEN nsep + 1 ELSE nsep
+            /\ norm' = IF (Full /\ ~Bad) /\ norm = 0 THEN CHOOSE d \in Scales : TRUE ELSE norm
             /\ Adv
        ELSE Reject(PredWhy)
 
-Same == Ev.d[1] = Ev.d[2] /\ Ev.d[1] = Ev.d[3]
 \* vacuity marker read by props/x04.py: the separation clause was demanded for this case
 SepMark == SepDomain => PrintT(<<"SEP", Case.id, nsep, Len(In.seeds)>>)
+Same == Ev.d[1] = Ev.d[2] /\ Ev.d[1] = Ev.d[3]
 TRefit ==
   /\ HasEv("refit")
   /\ SepMark
   /\ IF Same /\ (SepDomain => 2 * nsep > Len(In.seeds))
-       THEN Adv /\ UNCHANGED nsep
+       THEN Adv /\ UNCHANGED tv
        ELSE Reject(IF ~Same THEN "not_reproducible" ELSE "not_separated")
 
 \* anything else (a panic of the code under test) is explained by no action
 \* (on rank-deficient data with valid parameters -- outside the statement -- even that is passed over)
 TOther ==
   /\ e <= Len(Case.ev) /\ Ev.ev \notin {"fit", "predict", "refit"}
-  /\ IF NN > 0 /\ ~Full /\ ~Bad THEN Adv /\ UNCHANGED nsep ELSE Reject(Ev.ev)
+  /\ IF NN > 0 /\ ~Full /\ ~Bad THEN Adv /\ UNCHANGED tv ELSE Reject(Ev.ev)
 
-UsedDev == "sources_scaled_inv_sqrt_n" \in Devs /\ Full /\ ~Bad
-           /\ \E q \in 1..Len(Case.ev) : Case.ev[q].ev = "predict"
-                 /\ ~WhiteOk([i \in 1..NN |-> Case.ev[q].Y[i]], KK, StrictNorms(NN))
 Accept ==
   /\ e = Len(Case.ev) + 1
   /\ Len(Case.ev) > 0 /\ Case.ev[Len(Case.ev)].ev = "refit"
-  /\ IF UsedDev THEN OkDev(Case.id, <<"sources_scaled_inv_sqrt_n">>) ELSE Ok(Case.id)
-  /\ e' = e + 1 /\ UNCHANGED <<c, vars, nsep>>
+  /\ Ok(Case.id)
+  /\ e' = e + 1 /\ UNCHANGED <<c, vars, tv>>
 
 TraceNext == TFit \/ TPred \/ TRefit \/ TOther \/ Accept
 =============================================================================
